@@ -230,6 +230,24 @@ class Parser:
                     self.next()
             self.expect(")")
             return ("pctor", segs, items)
+        if self.at("{") and segs[-1][0].isupper() and self.struct_ahead():
+            self.next()
+            fields = []
+            while not self.at("}"):
+                if self.at(".."):
+                    self.next()
+                    fields.append(("..", None))
+                    continue
+                fn = self.expect_id()
+                if self.at(":"):
+                    self.next()
+                    fields.append((fn, self.pattern()))
+                else:
+                    fields.append((fn, ("pid", fn)))
+                if self.at(","):
+                    self.next()
+            self.expect("}")
+            return ("pstruct", segs, fields)
         if len(segs) > 1 or segs[0][0].isupper():
             return ("ppath", segs)
         return ("pid", name)
@@ -412,7 +430,11 @@ class Parser:
                 self.next()
                 return ("break",)
             if name == "while":
-                raise Untranslatable("loop construct `%s`" % name)
+                self.next()
+                self.no_struct += 1
+                c = self.expr()
+                self.no_struct -= 1
+                return ("while", c, self.block())
             self.next()
             if self.at("!") and name in KNOWN_MACROS and self.peek(1)[0] == "op" and self.peek(1)[1] == "(":
                 self.next(); self.next()
@@ -552,7 +574,7 @@ class Parser:
             return ("expr", e), False
         if self.at("}"):
             return ("expr", e), True
-        if e[0] in ("if", "match", "block", "for", "loop"):
+        if e[0] in ("if", "match", "block", "for", "loop", "while"):
             return ("expr", e), False
         raise Untranslatable("expected `;` or `}` after expression, found %r" % (self.peek(),))
 
